@@ -185,13 +185,16 @@ def run(tier, seed):
     for sig, msg in fork_call(iso_code_attempts):
         total.violation(sig, msg, {'iso_code_attempts': True})
     if tier == 'thorough':
-        plans = [(VALID + INVALID, 4)]
+        plans = [(VALID + INVALID, 3, ROOTS),
+                 (VALID[:12] + ['EUR'] + INVALID[:8], 4,
+                  [ROOTS[0], ROOTS[2], ROOTS[3]])]
     else:
         k = seed % 4
         inv = INVALID[k:] + INVALID[:k]
-        plans = [(VALID + INVALID, 2), (VALID[:12] + ['EUR'] + inv[:6], 3)]
-    for names, depth in plans:
-        for root in ROOTS:
+        plans = [(VALID + INVALID, 2, ROOTS),
+                 (VALID[:12] + ['EUR'] + inv[:6], 3, ROOTS)]
+    for names, depth, roots in plans:
+        for root in roots:
             n, nfp, ng = explore(names, depth, total, root)
             counts[f"root {'+'.join(root) or 'empty'} / {len(names)} events "
                    f"/ depth {depth}"] = {
